@@ -958,3 +958,21 @@ func UnitDigitSingles(m *big.Int) []V {
 
 	return out
 }
+
+// FractionStored returns stored values r < m next to j*2^256/k (j = 1..k-1): a stored operand whose product with the small
+// word k lands just above a multiple of 2^256, which is where a one-limb multiplication that folds its overflow limb back
+// (2^256 = c mod m) adds the fold to an almost-full low part.
+func FractionStored(m *big.Int, k int64) []*big.Int {
+	var out []*big.Int
+
+	for j := int64(1); j < k; j++ {
+		base := new(big.Int).Div(new(big.Int).Mul(big.NewInt(j), two256), big.NewInt(k))
+		for d := int64(-1); d <= 2; d++ {
+			if v := addI(base, d); v.Sign() > 0 && v.Cmp(m) < 0 {
+				out = append(out, v)
+			}
+		}
+	}
+
+	return out
+}
